@@ -137,6 +137,8 @@ def call_map(case, dg, sim_factory, extra=None, state=None):
             kw = {}
             if l.get("mode") is not None:
                 kw["mode"] = l["mode"]
+            if l.get("op") is not None:
+                kw["operation"] = l["op"]
             layers.append(dg.layer(l["key"], **kw))
     kw = view_kwargs(case["view"], case["mesh"])
     kw["direction"] = state["direction"] if state is not None and "direction" in state else direction_arg(case["direction"])
